@@ -59,15 +59,26 @@ package util
 //@   modifies nothing
 //@   panics never
 
-// Precondition "exactly one '.'" is an obligation at every call site under contract.
+// Full names "db.collection": fullDB / fullColl are the two parts (uninterpreted outside the
+// verification of GetCollectionNameFromFull, where their definition by substr/indexof is used).
+// Precondition "exactly one '.'" (oneDot) is an obligation at every call site under contract.
+//@ ufunc fullDB (String) String
+//@ ufunc fullColl (String) String
+//@ smtaxiom fullDBDef for GetCollectionNameFromFull GetFullCollectionName: (forall ((s String)) (! (= (fullDB s) (str.substr s 0 (str.indexof s "." 0))) :pattern ((fullDB s))))
+//@ smtaxiom fullCollDef for GetCollectionNameFromFull GetFullCollectionName: (forall ((s String)) (! (= (fullColl s) (str.substr s (+ (str.indexof s "." 0) 1) (str.len s))) :pattern ((fullColl s))))
+//@ ufunc oneDot (String) Bool
+//@ smtaxiom oneDotDef for GetCollectionNameFromFull GetFullCollectionName: (forall ((s String)) (! (= (oneDot s) (and (str.contains s ".") (not (str.contains (str.substr s (+ (str.indexof s "." 0) 1) (str.len s)) ".")))) :pattern ((oneDot s))))
+
 //@ func GetCollectionNameFromFull
-//@   props C10 C19
-//@   requires [one-dot] contains(fullName, ".") && !contains(substr(fullName, indexOf(fullName, ".") + 1, len(fullName)), ".")
-//@   ensures result0 == substr(fullName, 0, indexOf(fullName, "."))
-//@   ensures result1 == substr(fullName, indexOf(fullName, ".") + 1, len(fullName))
+//@   props C10 C19 C09
+//@   requires [one-dot] oneDot(fullName)
+//@   ensures result0 == fullDB(fullName) && result1 == fullColl(fullName)
 //@   ensures result0 + "." + result1 == fullName
 //@   modifies nothing
 //@   panics never
+
+// joining two '.'-free names and splitting again is the identity
+//@ lemma fullNameRoundTrip C10 C09: forall d string, c string :: !contains(d, ".") && !contains(c, ".") ==> contains(d + "." + c, ".") && !contains(substr(d + "." + c, indexOf(d + "." + c, ".") + 1, len(d + "." + c)), ".") && substr(d + "." + c, 0, indexOf(d + "." + c, ".")) == d && substr(d + "." + c, indexOf(d + "." + c, ".") + 1, len(d + "." + c)) == c
 
 // ---- C16: channel-count mapping ------------------------------------------------------------------
 
